@@ -5,6 +5,7 @@ import (
 	"math/rand"
 	"sync"
 	"testing"
+	"time"
 
 	"verif/mon"
 	"verif/props"
@@ -36,7 +37,12 @@ func pktHistories(rec *mon.Recorder, n int, tune func(i int, c *world.PktCfg), m
 func TestC01(t *testing.T) {
 	rec := mon.New("C01", "exploration", pktRule)
 	rec.Require("recv-accepted", "recv-rejected", "recv-accepted-mutated")
-	pktHistories(rec, mon.Scale(48, 1600), func(i int, c *world.PktCfg) { c.PAdv, c.PRelay, c.AdvBatch = 0.3, 0.3, 8 },
+	pktHistories(rec, mon.Scale(48, 1600), func(i int, c *world.PktCfg) {
+		c.PAdv, c.PRelay, c.AdvBatch = 0.3, 0.3, 8
+		if i%4 == 1 { // clients with a confirmation delay
+			c.Delay = 17 * time.Second
+		}
+	},
 		func() []world.Monitor { return []world.Monitor{&props.C01{R: rec}} })
 	setExit(rec.Finish())
 }
@@ -44,7 +50,12 @@ func TestC01(t *testing.T) {
 func TestC02(t *testing.T) {
 	rec := mon.New("C02", "exploration", pktRule)
 	rec.Require("recv-callbacks", "honest-recv-expected-accept", "replay-after-accept-rejected")
-	pktHistories(rec, mon.Scale(48, 1600), func(i int, c *world.PktCfg) { c.PAdv, c.PClean = 0.25, 0.14 },
+	pktHistories(rec, mon.Scale(48, 1600), func(i int, c *world.PktCfg) {
+		c.PAdv, c.PClean = 0.22, 0.14
+		if i%2 == 1 { // every other history is clean-heavy: replays around and below clean points
+			c.PClean, c.PRelay, c.PAdv, c.Steps = 0.25, 0.4, 0.12, 160
+		}
+	},
 		func() []world.Monitor { return []world.Monitor{&props.C02{R: rec}} })
 	// concurrent relayers into one block producer, checked with porcupine
 	rec.Require("concurrent-histories", "concurrent-multi-tx-blocks")
